@@ -257,7 +257,10 @@ def check(prop: str, tier: str) -> int:
             if j.h is h and j.result:
                 for ls, _n in j.result.get("label_sets") or []:
                     hit.update(ls)
-        missing = [lab for lab in h.require if lab not in hit]
+        # a label written "PROP:label" is required only in runs for that property
+        req = [lab.split(":", 1)[1] if lab[:3] == prop and lab[3:4] == ":" else lab
+               for lab in h.require if lab[3:4] != ":" or not lab[:3].startswith("C") or lab[:3] == prop]
+        missing = [lab for lab in req if lab not in hit]
         refuted = any(j.h is h and (j.result or {}).get("status") == "REFUTED" for j in jobs)
         errored = any(
             j.h is h and (j.result or {}).get("status") in ("HARNESS_ERROR", "KILLED")
